@@ -1,7 +1,7 @@
 (** C16 - Notification hooks fire exactly once and in order around each link
     change.  Only statements; proofs are [exact <lemma>]. *)
 Require Import AT.Model.Base AT.Model.Heap AT.Model.Mutate AT.Spec.MutSpec.
-Require AT.Proofs.MutParent AT.Proofs.MutHistory AT.Proofs.MutDelRun AT.Proofs.MutSetRun.
+Require AT.Proofs.MutParent AT.Proofs.MutHistory AT.Proofs.MutDelRun AT.Proofs.MutSetRun AT.Proofs.MutInv AT.Proofs.ReentryProofs AT.Model.Reentry.
 Import AT.Proofs.MutParent.
 
 (** a parent change that actually happens logs exactly
@@ -101,6 +101,41 @@ Proof.
   rewrite (MutSetRun.set_children_run typed asrt fu n xs s I Hn ND B). reflexivity.
 Qed.
 Print Assumptions C16_children_log.
+
+(** hooks that are not mere observers: the hooks of the moving node may detach
+    other nodes while the setter runs.  As long as they never detach the moving
+    node itself, a parent assignment that is a real change keeps the forest
+    consistent, is refused without any effect or performs the move (the node ends
+    up as the last child of its new parent), and each hook observes exactly the
+    state the protocol promises (_pre_detach: still a child of old;
+    _post_detach/_pre_attach: a root in no children list; _post_attach: last
+    child of new) *)
+Theorem C16_reentrant_hooks : forall acts L n,
+  (forall i k, ~ In n (acts i k n)) -> (forall i k x, In x (acts i k n) -> x < L) ->
+  forall v s, AT.Proofs.MutInv.IL L (heap_of s) -> n < L -> match v with Some q => q < L | None => True end ->
+  parent (heap_of s) n <> v ->
+  let r := AT.Model.Reentry.set_parent_r acts n v s in
+  AT.Proofs.MutInv.IL L (heap_of (snd r)) /\
+  (fst r = Ok tt -> parent (heap_of (snd r)) n = v /\
+                    match v with Some q => exists l, children (heap_of (snd r)) q = l ++ [n] | None => True end) /\
+  (fst r <> Ok tt -> snd r = s) /\
+  (exists evs, log (snd r) = log s ++ evs /\ Forall (AT.Proofs.ReentryProofs.event_ok n) evs).
+Proof. exact AT.Proofs.ReentryProofs.set_parent_r_ok. Qed.
+Print Assumptions C16_reentrant_hooks.
+(** with hooks that do nothing this is the parent setter of the main model *)
+Theorem C16_reentrant_plain : forall typed n v s,
+  AT.Model.Reentry.set_parent_r AT.Model.Reentry.no_acts n v s
+  = set_parent typed false no_faults n (AT.Proofs.MutParent.opt_value v) s.
+Proof. exact AT.Proofs.ReentryProofs.set_parent_r_plain. Qed.
+Print Assumptions C16_reentrant_plain.
+
+(** non-vacuity: _pre_attach of node 2 detaches node 1 from the new parent 0 *)
+Example C16_reentrant_example :
+  let h := attach_links (init 3) 1 0 in
+  let acts := fun (_ : nat) (k : hookkind) (_ : id) => match k with PreAttach => [1] | _ => [] end in
+  let r := AT.Model.Reentry.set_parent_r acts 2 (Some 0) (start h) in
+  fst r = Ok tt /\ children (heap_of (snd r)) 0 = [2] /\ parent (heap_of (snd r)) 1 = None /\ inv_b (heap_of (snd r)) = true.
+Proof. vm_compute. repeat split. Qed.
 
 Example C16_example :
   let h := attach_links (init 3) 1 0 in
